@@ -1,0 +1,13 @@
+//go:build verif
+
+package terminalformat
+
+// Machine-checked contracts for package terminalformat (comment-only; see klog/contracts_verif.go).
+
+// Reflow (used when parser errors and application errors are rendered, property C06): no index leaves its slice -
+// there is always a current line, and the look-ahead at the next word happens only when there is one.
+//@ func (Reflower).Reflow
+//@ noframe
+//@ ensures true
+//@ loop 1 invariant true
+//@ loop 2 invariant len(lines) >= 1
